@@ -55,6 +55,10 @@ func lookupExternal(fn *ssa.Function) *externalSpec {
 	case "bytes.IndexByte":
 		return &externalSpec{pure: true, special: "indexbyte", assumed: "bytes.IndexByte(b,c) returns -1 or the first index of c in b"}
 	}
+	switch full {
+	case "github.com/goccy/go-json/internal/runtime.typelinks", "github.com/goccy/go-json/internal/runtime.rtypeOff":
+		return &externalSpec{pure: true, assumed: "reflect.typelinks / reflect.rtypeOff (go:linkname) do not write memory modelled here"}
+	}
 	switch pkg {
 	case "github.com/goccy/go-json/internal/errors":
 		return &externalSpec{pure: true, nonNil: true, assumed: "constructors in internal/errors are pure and return non-nil errors"}
@@ -359,6 +363,7 @@ func (f *Frame) contractCall(st *State, x *ssa.Call, c *Contract, callee *ssa.Fu
 		calleeFrame = &Frame{vc: vc, fn: callee, genv: f.genv, prefix: f.prefix, names: map[string]CV{}, callCount: f.callCount, idxCount: f.idxCount, oblPrefix: f.oblPrefix, c: f.c}
 	}
 	ctx.f = calleeFrameFor(calleeFrame, f)
+	ctx.pkg = c.Pkg
 	f.callCount[name]++
 	for _, l := range c.Lets {
 		ctx.names[l.Name] = ctx.evalLet(l)
@@ -428,6 +433,18 @@ func (f *Frame) contractCall(st *State, x *ssa.Call, c *Contract, callee *ssa.Fu
 	}
 	if c.Trusted != "" {
 		vc.note("trusted contract: %s (%s)", c.Key, c.Trusted)
+	}
+	if f.c != nil && f.top {
+		for _, ca := range f.c.PostAssumes[name] {
+			actx := f.newCtx(st, f.entry)
+			g, err := actx.evalBoolSafe(ca.E)
+			if err != nil {
+				vc.note("post-call assumption cannot be evaluated: %v", err)
+				continue
+			}
+			st.pc = B.And(st.pc, g)
+			vc.note("ASSUMED after the call to %s in %s: %s", name, f.c.Key, ca.Text)
+		}
 	}
 	switch len(rvals) {
 	case 0:
